@@ -244,6 +244,7 @@ fn case(rng: &mut Rng, pools: &mut Pools, rep: &mut Report, case_no: u64, dump: 
                 x
             }
             DriverPlan::Jitter(s, l) => Arc::new(Jitter { seed: *s, level: *l }),
+            DriverPlan::Slow(s) => Arc::new(Slow { seed: *s }),
             _ => Arc::new(Free),
         };
         driver_name = driver.name();
